@@ -6,7 +6,7 @@ export GOFLAGS=-mod=mod GOPROXY=off GOSUMDB=off GOTOOLCHAIN=local
 out=$(mktemp /tmp/verif-baseline.XXXXXX.json)
 trap 'rm -f "$out"' EXIT
 pk=("$@"); [ ${#pk[@]} -eq 0 ] && pk=(./...)
-(cd /repo && go test -mod=mod -json -vet=off -count=1 -timeout 25m "${pk[@]}") > "$out" 2>/dev/null
+(cd ${REPO:-/repo} && go test -mod=mod -json -vet=off -count=1 -timeout 25m "${pk[@]}") > "$out" 2>/dev/null
 python3 - "$out" "${pk[*]}" <<'PY'
 import json,sys
 res={}
